@@ -317,6 +317,189 @@ def _split_ite(v, input_term, dom, full):
     return None
 
 
+def expand_tables(F, fn, it, pieces):
+    """pieces whose value is a read of a constant table at an index linear in the input become one piece per input value
+    (the value SLICE-normalised under the piece's interval); other pieces are returned unchanged"""
+    from . import an, slices as SL
+    A = an.of(F, fn)
+    nit = G.N(it)
+    out = []
+    for (iv, val, bb) in pieces:
+        if not iv or val[0] == "diverge" or size(iv) > 4096:
+            out.append((iv, val, bb))
+            continue
+        lo, hi = iv[0][0], iv[-1][1]
+        facts = [("cmp", "Ge", nit, ("c", lo)), ("cmp", "Le", nit, ("c", hi))]
+        try:
+            v = SL.Norm(facts, A).norm(G.N(val))
+        except Exception:
+            out.append((iv, val, bb))
+            continue
+        tbl = None
+        for x in _subterms(v):
+            if isinstance(x, tuple) and x and x[0] == "elem":
+                T_ = x[1]
+                for _ in range(4):
+                    if T_[0] in ("ref", "deref", "unsize"):
+                        T_ = T_[1]
+                if T_[0] == "aggr" and T_[1] == ("array",):
+                    tbl = (x, T_[2])
+        if tbl is None:
+            out.append((iv, val, bb))
+            continue
+        x, elems = tbl
+        try:
+            lf = G.lin(x[2])
+        except Exception:
+            out.append((iv, val, bb))
+            continue
+        if set(lf.m.keys()) - {nit} or lf.m.get(nit) != 1:
+            out.append((iv, val, bb))
+            continue
+        ok = True
+        new = []
+        for (a, b_) in iv:
+            for k in range(a, b_ + 1):
+                i = k + lf.c
+                if not (0 <= i < len(elems)):
+                    ok = False
+                    break
+                ev = elems[i]
+                if ev[0] == "cs" and len(ev) > 3 and not ev[3]:
+                    ev = ("aggr", ("adt", str(ev[1]).rsplit("::", 1)[0], ev[2], ()), ())
+                vv = _replace(v, ("deref", ("ref", x)), ev)
+                vv = _replace(vv, ("deref", x), ev)
+                vv = _replace(vv, ("ref", x), ("ref", ev))
+                vv = _replace(vv, x, ev)
+                new.append((((k, k),), vv, bb))
+        out += new if ok else [(iv, val, bb)]
+    return out
+
+
+def classify_by_exits(F, fn, domain, input_term=None):
+    """A second route to the same table, for functions that are decision lists rather than switch trees: every exit's path
+    condition (SLICE-normalised) is a conjunction of comparisons of the input with constants -> an interval set; its value is
+    the piece's outcome.  A value `TABLE[input - c]` over a constant table is expanded to one piece per input value.
+    Returns (input_term, pieces) or raises Unrecognised."""
+    from . import an, chain as CH, slices as SL
+    A = an.of(F, fn)
+    ex = CH.exits(A)
+    if not ex:
+        raise Unrecognised("no exits")
+    pcs = {}
+    for e in ex:
+        pcs[id(e)] = SL.norm_facts([G.N(f) for f in e.facts], A)
+    if input_term is None:
+        # the classified value: the term most path conditions compare with constants
+        cands = []
+        for e in ex:
+            for f in pcs[id(e)]:
+                if f[0] == "cmp" and (f[2][0] == "c") != (f[3][0] == "c"):
+                    cands.append(f[3] if f[2][0] == "c" else f[2])
+        if not cands:
+            raise Unrecognised("no exit compares anything with a constant")
+        input_term = max(set(cands), key=lambda c_: (cands.count(c_), -cands.index(c_)))
+    it_raw = ("arg", 1, A.body.local_ty(1)) if input_term == ("arg", 1) else input_term
+    full = domain
+    INF = full[-1][1]
+    pieces = []
+    for e in ex:
+        pc = pcs[id(e)]
+        cur = full
+
+        def sat_of(f):
+            """inputs satisfying fact / boolean term f; None = f does not constrain the input"""
+            if f[0] in ("cmp", "bin") and f[1] in G.CMPS:
+                a, b_, op = G.strip(f[2]), G.strip(f[3]), f[1]
+                if b_ == input_term and a[0] == "c":
+                    a, b_, op = b_, a, G.SWAP[op]
+                if a == input_term and b_[0] == "c":
+                    k = b_[1]
+                    return norm({"Eq": ((k, k),), "Ne": minus(full, ((k, k),)), "Lt": ((0, k - 1),) if k > 0 else (), "Le": ((0, min(k, INF)),),
+                                 "Gt": ((k + 1, INF),) if k < INF else (), "Ge": ((k, INF),) if k <= INF else ()}[op])
+                if depends_on(f, input_term):
+                    # linear in the input: (input + c1) CMP c2
+                    try:
+                        d_ = G.lin(a).add(G.lin(b_), -1)
+                    except Exception:
+                        d_ = None
+                    if d_ is not None and set(d_.m.keys()) == {input_term} and d_.m[input_term] in (1, -1):
+                        co = d_.m[input_term]
+                        # co*x + c  OP  0
+                        c0 = d_.c
+                        opx = op if co == 1 else G.SWAP[op]
+                        k = -c0 if co == 1 else c0        # x OPX k
+                        if k < 0:
+                            return full if opx in ("Gt", "Ge", "Ne") else ()
+                        return norm({"Eq": ((k, k),), "Ne": minus(full, ((k, k),)), "Lt": ((0, k - 1),) if k > 0 else (), "Le": ((0, min(k, INF)),),
+                                     "Gt": ((k + 1, INF),) if k < INF else (), "Ge": ((k, INF),) if k <= INF else ()}[opx])
+                    raise Unrecognised("%s is not a comparison of the input with a constant" % G.show(f)[:80])
+                return None
+            if f[0] == "istrue":
+                return sat_of(f[1])
+            if f[0] == "not":
+                s_ = sat_of(f[1])
+                return None if s_ is None else minus(full, s_)
+            if f[0] == "ite" and f[3] in (("c", 0), ("c", False)):
+                s1, s2 = sat_of(f[1]), sat_of(f[2])
+                if s1 is None and s2 is None:
+                    return None
+                return inter(s1 if s1 is not None else full, s2 if s2 is not None else full)
+            if f[0] == "const":
+                return full if f[1] else ()
+            if depends_on(f, input_term):
+                raise Unrecognised("path condition on the input that is not a comparison: %s" % G.show(f)[:80])
+            return None
+        for f in pc:
+            if f[0] == "or":
+                continue        # a disjunction (merge fact) only weakens the condition; overlaps are detected below
+            s_ = sat_of(f)
+            if s_ is not None:
+                cur = inter(cur, s_)
+        if not cur:
+            continue
+        v = SL.Norm([f for f in pc if f[0] == "cmp"], A).norm(G.N(e.val))
+        # TABLE[input - c]
+        tbl = None
+        for x in _subterms(v):
+            if isinstance(x, tuple) and x and x[0] == "elem":
+                T_ = x[1]
+                for _ in range(4):
+                    if T_[0] in ("ref", "deref", "unsize"):
+                        T_ = T_[1]
+                if T_[0] == "aggr" and T_[1] == ("array",):
+                    tbl = (x, T_[2])
+        if tbl is None:
+            pieces.append((cur, e.val, e.bb))
+            continue
+        x, elems = tbl
+        try:
+            lf = G.lin(x[2])
+        except Exception:
+            raise Unrecognised("table index %s" % G.show(x[2])[:60])
+        if set(lf.m.keys()) - {input_term} or lf.m.get(input_term) != 1:
+            raise Unrecognised("table index is not `input - c`: %s" % G.show(x[2])[:60])
+        if size(cur) > 4096:
+            raise Unrecognised("table lookup over %d inputs" % size(cur))
+        for (lo, hi) in cur:
+            for val in range(lo, hi + 1):
+                i = val + lf.c
+                if not (0 <= i < len(elems)):
+                    raise Unrecognised("table index %d out of range for input %d" % (i, val))
+                ev = elems[i]
+                if ev[0] == "cs" and len(ev) > 2:
+                    ev = ("aggr", ("adt", str(ev[1]).rsplit("::", 1)[0], ev[2], ()), ()) if not ev[3] else ev
+                pieces.append((((val, val),), _replace(v, x, ev) if v != ("deref", x) and v != x else ev, e.bb))
+    cov = ()
+    for (s_, _, _) in pieces:
+        if inter(cov, s_):
+            raise Unrecognised("overlapping exits")
+        cov = union(cov, s_)
+    if minus(full, cov):
+        raise Unrecognised("exits do not cover the domain: missing %s" % fmt(minus(full, cov)))
+    return it_raw, pieces
+
+
 def depends_on(t, x):
     if t == x:
         return True
